@@ -229,7 +229,29 @@ func fileCase(mode, format string, in []byte) string {
 	case "missing":
 		path = filepath.Join(dir, "does-not-exist.nw")
 		effective = nil
-	case "gz", "gztrunc", "gzflip", "notgz":
+	case "missinggz":
+		path = filepath.Join(dir, "does-not-exist.nw.gz")
+		effective = nil
+	case "empty":
+		content, effective = nil, nil
+	case "onebyte":
+		if len(in) > 0 {
+			content = in[:1]
+		} else {
+			content = []byte("(")
+		}
+		effective = content
+	case "dir", "dirgz":
+		// a directory: os.Open succeeds, every read fails
+		path = filepath.Join(dir, "sub")
+		if mode == "dirgz" {
+			path += ".gz"
+		}
+		if err := os.Mkdir(path, 0755); err != nil {
+			return "bad"
+		}
+		content, effective = nil, nil
+	case "gz", "gztrunc", "gzflip", "notgz", "emptygz", "onebytegz":
 		path = filepath.Join(dir, "in.txt.gz")
 		var zb bytes.Buffer
 		zw := gzip.NewWriter(&zb)
@@ -246,6 +268,10 @@ func fileCase(mode, format string, in []byte) string {
 			}
 		case "notgz":
 			content = in
+		case "emptygz":
+			content = nil
+		case "onebytegz":
+			content = []byte{0x1f}
 		}
 		// what a gzip reader delivers before its first error
 		effective = nil
@@ -255,7 +281,7 @@ func fileCase(mode, format string, in []byte) string {
 			mode = "gzheader" // GetReader itself fails
 		}
 	}
-	if mode != "missing" {
+	if mode != "missing" && mode != "missinggz" && mode != "dir" && mode != "dirgz" {
 		if err := os.WriteFile(path, content, 0644); err != nil {
 			return "bad"
 		}
@@ -295,7 +321,7 @@ func fileCase(mode, format string, in []byte) string {
 		fmt.Fprintf(&sb, "%d:tree:%s:%s|", r.id, class, dump)
 	}
 	openOK := "open"
-	if mode == "missing" || mode == "gzheader" {
+	if mode == "missing" || mode == "missinggz" || mode == "dirgz" || mode == "gzheader" {
 		openOK = "noopen"
 	}
 	return out + "\t" + sb.String() + "\t" + decoded(format, effective) + "\t" + openOK + "\t" + core.Escape(string(effective))
